@@ -4,7 +4,7 @@ import Model.Tsig
 
 encodings: name = `parseName`; key = `name/secret/alg`; rdata = `alg/time/fudge/mac/origid/error/other`;
 ctx = `none` | `hash/size/secret/data`; keyring = `absent` | `novalidate` | `key:<key>` |
-`dict:<name>=s:<secret>;<name>=k:<key>;…`; HMAC graph = `h=-` | `h=<hash>:<key>:<data>:<digest>;…`
+`dict:<name>=s:<secret>;<name>=k:<key>;…` | `call:<name>=k:<key>;…`; HMAC graph = `h=-` | `h=<hash>:<key>:<data>:<digest>;…`
 (the values of the external HMAC at the points the implementation evaluated it). -/
 namespace Driver
 open Model Model.Tsig
@@ -59,6 +59,14 @@ def c14Keyring (s : String) : Option Keyring :=
   else if s.startsWith "dict:" then
     let body := (s.drop 5).toString
     if body = "" then some (.dict []) else ((splitOnChar body ';').mapM c14KeyVal).map .dict
+  else if s.startsWith "call:" then
+    -- a callable given by its finite graph `name=k:<key>;…` (anything else ↦ None); lookup by Name equality
+    let body := (s.drop 5).toString
+    let rows := if body = "" then some [] else (splitOnChar body ';').mapM c14KeyVal
+    rows.map fun es => .callable fun n =>
+      match es.find? (fun e => nameEq e.1 n) with
+      | some (_, .key k) => some k
+      | _ => none
   else none
 
 /-- the external HMAC as the finite graph supplied on the line (empty digest where it was never evaluated) -/
@@ -146,6 +154,11 @@ def handleC14 : List String → Option String
     some (match read H algTable strict wire kr now rm ctx multi with
       | .error e => c14Err e
       | .ok r => c14ShowRead r)
+  | ["c14.usetsig", kr, keyname, alg] => do
+    let kr ← c14Keyring kr; let keyname ← parseOptName keyname; let alg ← parseName alg
+    some (match useTsig kr keyname alg with
+      | some (k, owner) => s!"ok {showName k.name}/{toHexP k.secret}/{showName k.algorithm} {showName owner}"
+      | none => "err")
   | ["c14.flips", wire, kr, now, rm, ctx, multi, strict] => do
     let wire ← ofHex wire; let kr ← c14Keyring kr; let now ← now.toNat?; let rm ← ofHex rm
     let ctx ← c14Ctx ctx; let multi ← parseBool multi; let strict ← parseBool strict
